@@ -332,13 +332,11 @@ Definition in_domain (c : call) : bool :=
       (* under :from-end the test receives (later element, earlier element): the order the language
          implies (sequence order) only for symmetric tests *)
       negb (c_from_end c) || test_symmetric (c_test c)
-  | FMember => is_list (c_seq c) && not_test_not (c_test c)              (* KF :test-not (own keyword loops) *)
-  | FMemberIf => is_list (c_seq c)
-  | FAssoc | FRassoc => is_list (c_seq c) && not_test_not (c_test c)     (* KF :test-not *)
-  | FAssocIf | FAssocIfNot | FRassocIf => is_list (c_seq c)
-  | FSearch => bounds2_ok c && not_test_not (c_test c)
+  | FMember | FMemberIf => is_list (c_seq c)
+  | FAssoc | FRassoc | FAssocIf | FAssocIfNot | FRassocIf => is_list (c_seq c)
+  | FSearch => bounds2_ok c
   | FMismatch =>
-      bounds2_ok c && not_test_not (c_test c) &&
+      bounds2_ok c &&
       (* KF from-end: the index of an element mismatch is counted from the wrong side *)
       (negb (c_from_end c) ||
        (let w1 := map (key_app (c_key c)) (slice (s_start c) (s_end c l1) l1) in
